@@ -283,7 +283,7 @@ int FSolver::HarmonicAxisymmetric(CBigComplexLinProb &L,bool verbose)
             for(j=0,a_hat=0; j<3; j++) a_hat+=(rn[j]*rn[j]*p[j]/(4.*R));
             vol=2.*R*a_hat;
 
-            for(j=0,flag=0; j<3; j++) if(rn[j]<1.e-06) flag++;
+            for(j=0,flag=0; j<3; j++) if(rn[j]<(units[LengthUnits]*1.e-06)) flag++;
             switch(flag)
             {
             case 2:
@@ -293,19 +293,19 @@ int FSolver::HarmonicAxisymmetric(CBigComplexLinProb &L,bool verbose)
 
             case 1:
                 R_hat = 0;
-                if(rn[0]<1.e-06)
+                if(rn[0]<(units[LengthUnits]*1.e-06))
                 {
-                    if (fabs(rn[1]-rn[2])<1.e-06) R_hat=rn[2]/2.;
+                    if (fabs(rn[1]-rn[2])<(units[LengthUnits]*1.e-06)) R_hat=rn[2]/2.;
                     else R_hat=(rn[1] - rn[2])/(2.*log(rn[1]) - 2.*log(rn[2]));
                 }
-                if(rn[1]<1.e-06)
+                if(rn[1]<(units[LengthUnits]*1.e-06))
                 {
-                    if (fabs(rn[2]-rn[0])<1.e-06) R_hat=rn[0]/2.;
+                    if (fabs(rn[2]-rn[0])<(units[LengthUnits]*1.e-06)) R_hat=rn[0]/2.;
                     else R_hat=(rn[2] - rn[0])/(2.*log(rn[2]) - 2.*log(rn[0]));
                 }
-                if(rn[2]<1.e-06)
+                if(rn[2]<(units[LengthUnits]*1.e-06))
                 {
-                    if (fabs(rn[0]-rn[1])<1.e-06) R_hat=rn[1]/2.;
+                    if (fabs(rn[0]-rn[1])<(units[LengthUnits]*1.e-06)) R_hat=rn[1]/2.;
                     else R_hat=(rn[0] - rn[1])/(2.*log(rn[0]) - 2.*log(rn[1]));
                 }
 
@@ -313,13 +313,13 @@ int FSolver::HarmonicAxisymmetric(CBigComplexLinProb &L,bool verbose)
 
             default:
 
-                if (fabs(q[0])<1.e-06 && fabs(q[1])<1.e-06 && fabs(q[2])<1.e-06)
+                if (fabs(q[0])<(units[LengthUnits]*1.e-06) && fabs(q[1])<(units[LengthUnits]*1.e-06) && fabs(q[2])<(units[LengthUnits]*1.e-06))
                     R_hat=R; // narrower than the tolerance of the special cases below (their formulas give 0/0)
-                else if (fabs(q[0])<1.e-06)
+                else if (fabs(q[0])<(units[LengthUnits]*1.e-06))
                     R_hat=(q[1]*q[1])/(2.*(-q[1] + rn[0]*log(rn[0]/rn[2])));
-                else if (fabs(q[1])<1.e-06)
+                else if (fabs(q[1])<(units[LengthUnits]*1.e-06))
                     R_hat=(q[2]*q[2])/(2.*(-q[2] + rn[1]*log(rn[1]/rn[0])));
-                else if (fabs(q[2])<1.e-06)
+                else if (fabs(q[2])<(units[LengthUnits]*1.e-06))
                     R_hat=(q[0]*q[0])/(2.*(-q[0] + rn[2]*log(rn[2]/rn[1])));
                 else
                     R_hat=-(q[0]*q[1]*q[2])/
@@ -344,7 +344,7 @@ int FSolver::HarmonicAxisymmetric(CBigComplexLinProb &L,bool verbose)
             // for scaling reasons to grab entries from the neighboring diagonals
             // rather than just setting these entries to 1 or something....
             for(j=0; j<3; j++)
-                if (rn[j]<1.e-06) Mx[j][j]+=Mx[0][0]+Mx[1][1]+Mx[2][2];
+                if (rn[j]<(units[LengthUnits]*1.e-06)) Mx[j][j]+=Mx[0][0]+Mx[1][1]+Mx[2][2];
 
             // Mz Contribution;
             // Derived from flux formulation with c0 + c1 r^2 + c2 z
